@@ -149,3 +149,10 @@ package mail
 //@ func mail.Client.SendWithSMTPClient
 //@   requires[C03,C04:hist] c != nil && (client != nil ==> csess(client) && txidle(client.Text))
 //@   loop 1 invariant[C03,C04:between] csess(client) && txidle(client.Text)
+
+// ---------------------------------------------------------------------------
+// C16  Authentication secrets never reach the debug log (mail.Client side: explicit opt-in only)
+//
+//@ func mail.Client.DialToSMTPClientWithContext
+//@   requires[C16:wf] c != nil
+//@ at mail.Client.DialToSMTPClientWithContext smtp.Client.SetLogAuthData#1 before assert[C16:opt-in] c.logAuthData
